@@ -133,4 +133,150 @@ def gen_C09(v, n):
     return out
 
 
+def _leaf_strings(leaves):
+    return ["/".join(val for _, val in f) for _, f in leaves]
+
+
+def _searches(v, leaves, n, allow_gt=0.3):
+    rng = v.rng
+    sg = SearchGen(v)
+    out = []
+    for _ in range(n):
+        base = rng.choice(leaves)
+        if rng.random() < 0.35:
+            label, fields = base
+            i = rng.randint(1, len(fields))
+            pl = [l for l, ks in v.templates if [k for k, _ in ks] == [k for k, _ in fields[:i]]]
+            base = (pl[0], fields[:i]) if pl else base
+        out.append(sg.search(base=base, allow_gt=rng.random() < allow_gt, malformed=0.02))
+    return out
+
+
+def gen_C11(v, n, model):
+    rng = v.rng
+    out = []
+    cfg = v.d["conf"]["default_path"] or sorted(v.paths.keys())[0]
+    for _ in range(n):
+        leaves = families.tree_universe(v)
+        ls = _leaf_strings(leaves)
+        junk = []
+        ask = [{"op": "sid_call", "from": {"s": s}, "m": "path", "config": cfg} for s in ls]
+        for a in model(ask):
+            p = a.get("ok")
+            if not p:
+                continue
+            for _ in range(2):
+                mp = families.mutate_path(v, p)
+                if mp.startswith("/R/data/testing/SPIL_PROJECTS/LOCAL/") and not any(ch in mp for ch in "\n\x00[]?*") and "//" not in mp \
+                        and not mp.endswith("/") and "/." not in mp and mp != p:
+                    junk.append({"path": mp, "kind": rng.choice(["file", "dir"])})
+            if rng.random() < 0.3:   # a sidecar-like hidden file and a foreign file next to the entity
+                junk.append({"path": p.rsplit("/", 1)[0] + "/.stray.data.json", "kind": "file"})
+                junk.append({"path": p.rsplit("/", 1)[0] + "/notes.txt", "kind": "file"})
+        out.append(_op("C11", {"leaves": ls, "junk": junk[:8], "searches": _searches(v, leaves, 8) + ["hamlet/a/**", "hamlet/s/**", "hamlet/*"]}))
+    return out
+
+
+def gen_C12(v, n):
+    rng = v.rng
+    out = []
+    for _ in range(n):
+        leaves = families.tree_universe(v)
+        ls = _leaf_strings(leaves)
+        probes = []
+        for s in ls:
+            parts = s.split("/")
+            i = rng.randint(2, len(parts))
+            probes.append("/".join(parts[:i]))
+        probes.append(v.typed_sid(search=0)[1])
+        out.append(_op("C12", {"leaves": ls, "searches": _searches(v, leaves, 6, allow_gt=0.15) + [rng.choice(ls)], "probes": probes}))
+    return out
+
+
+def gen_C15(v, n):
+    rng = v.rng
+    out = []
+    from gen import NAMES
+    for _ in range(n):
+        leaves = families.tree_universe(v, nleaf=rng.randint(2, 3))
+        ls = [s for s in _leaf_strings(leaves)]
+        pool = []
+        for s in ls:
+            parts = s.split("/")
+            # directory levels whose name contains a dot are created as FILES by WriteToPaths (known finding K4)
+            if any("." in p for p in parts[:-1]):
+                continue
+            for i in range(1, len(parts) + 1):
+                pool.append("/".join(parts[:i]))
+        if not pool:
+            continue
+        pool = sorted(set(pool)) + ["junk", "hamlet/a/char/x/model/v001/w"]
+        ops = []
+        for _ in range(rng.randint(4, 40) if rng.random() < 0.5 else rng.randint(2, 6)):
+            s = rng.choice(pool)
+            x = rng.random()
+            if x < 0.3:
+                op = {"do": "create", "sid": s}
+                if rng.random() < 0.4:
+                    op["data"] = families._attr_data(rng)
+            elif x < 0.5:
+                op = {"do": rng.choice(["update", "set"]), "sid": s, "data": families._attr_data(rng)}
+                if op["do"] == "set":   # keyword spelling: the key 'sid' would collide with the parameter
+                    op["data"] = [kv for kv in op["data"] if " " not in kv[0] and kv[0] != "sid"]
+            elif x < 0.8:
+                op = {"do": "get_data", "sid": s}
+            else:
+                op = {"do": "exists", "sid": s}
+            ops.append(op)
+        out.append(_op("C15", {"ops": ops}))
+    return out
+
+
+def gen_C16(v, n):
+    rng = v.rng
+    out = []
+    for _ in range(n):
+        leaves = families.tree_universe(v)
+        ls = _leaf_strings(leaves)
+        data = []
+        for s in ls:
+            if rng.random() < 0.6:
+                data.append([s, [kv for kv in families._attr_data(rng) if kv[0] != "sid"]])
+        queries = []
+        for s in _searches(v, leaves, 6, allow_gt=0.1) + [rng.choice(ls)]:
+            q = {"s": s, "enc": rng.choice(["str", "uri", "none"])}
+            if rng.random() < 0.5:
+                q["attributes"] = rng.sample(["comment", "frames", "status", "sid", "nope"], rng.randint(1, 3))
+            queries.append(q)
+        out.append(_op("C16", {"leaves": ls, "data": data, "queries": queries}))
+    return out
+
+
+def gen_C18(v, n):
+    rng = v.rng
+    out = []
+    for _ in range(n):
+        leaves = families.tree_universe(v, nleaf=1)
+        label, fields = leaves[0]
+        keys = [k for k, _ in fields]
+        if "version" not in keys:
+            continue
+        i = keys.index("version")
+        task = "/".join(val for _, val in fields[:i])
+        tail = rng.choice(["", "/" + "/".join(val for _, val in fields[i + 1:])])
+        kind = rng.random()
+        if kind < 0.2:
+            versions = []
+        elif kind < 0.5:
+            versions = sorted(rng.sample(range(1, 30), rng.randint(1, 5)))
+        elif kind < 0.7:
+            versions = sorted(rng.sample(range(1, 999), rng.randint(1, 6)))
+        elif kind < 0.85:
+            versions = sorted(set(rng.sample(range(990, 1000), rng.randint(1, 4)) + [999]))
+        else:
+            versions = [rng.choice([1, 998, 999])]
+        out.append(_op("C18", {"task": task, "tail": tail, "versions": versions, "publish": rng.choice([0, 3, 8])}))
+    return out
+
+
 GENERATORS = {name[4:]: fn for name, fn in list(globals().items()) if name.startswith("gen_")}
